@@ -160,6 +160,13 @@ func (r *Recorder) Count(n int64, classes ...string) {
 	}
 }
 
+// Tally adds n to a class counter without counting an evaluation.
+func (r *Recorder) Tally(c string, n int64) {
+	r.mu.Lock()
+	r.classes[c] += n
+	r.mu.Unlock()
+}
+
 func (r *Recorder) Class(c string) {
 	r.mu.Lock()
 	r.classes[c]++
